@@ -8,12 +8,14 @@ CONSTANTS
   Metrics <- RMetrics
   TimingShard = 1
   T0 <- R0
+  Lags0 = {2, 2, 3, 5, 6, 40, 125}
+  Fulls0 = {FALSE, TRUE}
   Ticks <- RTicks
   TsOffs <- ROffs
   Kinds = {"metric", "api"}
   SpreadOf <- AllSpread
   Variant = "code"
-  MaxOps = 60
+  MaxOps = 46
   MaxEvents = 30
 INVARIANTS ExactlyOnce AllFlushed NotEarly RingOK Rounded Placement DropsJustified OutIncreasing SendBound ChanCap
 ACTION_CONSTRAINT ExportEnd
